@@ -173,6 +173,107 @@ theorem rewrite_replaces_segment (f : Bytes) (p : Spec.Pkg) (ms : List Map) (hr 
       have := hlast x (by simpa [List.getLast?_cons_cons] using hx)
       exact this
 
+/-! ### reads on one shared file object (`Xpak(fileobj)`): no read depends on the reads before it -/
+
+/-- **one read on a shared file object**: whatever position the previous reads left the file object at,
+`_get_data` returns what a read on a fresh handle returns, and the content is untouched. -/
+theorem getDataFd_pos_independent (f : Bytes) (p : Nat) (s : Slot) :
+    (getDataFd ⟨f, p⟩ s).1 = getData f s ∧ (getDataFd ⟨f, p⟩ s).2.content = f := by
+  unfold getDataFd getData
+  by_cases hp : p = s.1
+  · subst hp
+    simp only [ne_eq, not_true_eq_false, if_false]
+    split
+    · exact ⟨rfl, rfl⟩
+    · split
+      · split <;> exact ⟨rfl, rfl⟩
+      · exact ⟨rfl, rfl⟩
+  · simp only [ne_eq, hp, not_false_eq_true, if_true]
+    split
+    · exact ⟨rfl, rfl⟩
+    · split
+      · split <;> exact ⟨rfl, rfl⟩
+      · exact ⟨rfl, rfl⟩
+
+/-- **any history of reads on one shared file object** (entries of several `items()`/`values()` generators
+advanced in any interleaving, keyed lookups in between, starting at any position) returns, step by step,
+what independent reads return: the result of read k does not depend on the reads before it. -/
+theorem readHistory_independent (f : Bytes) (p : Nat) (ss : List Slot) :
+    readHistory ⟨f, p⟩ ss = ss.map (getData f) := by
+  induction ss generalizing p with
+  | nil => rfl
+  | cons s rest ih =>
+    have h := getDataFd_pos_independent f p s
+    unfold readHistory
+    simp only [List.map_cons]
+    rw [← h.1]
+    have hc : (getDataFd ⟨f, p⟩ s).2 = ⟨f, (getDataFd ⟨f, p⟩ s).2.pos⟩ := by
+      cases hh : (getDataFd ⟨f, p⟩ s).2 with
+      | mk c q => have := h.2; rw [hh] at this; simp only at this; subst this; rfl
+    rw [hc, ih]
+
+theorem mapM_ok_mem {α β : Type} (g : α → Except Err β) (d : List α) (l : List β) (h : d.mapM g = .ok l) :
+    ∀ a ∈ d, ∃ b, g a = .ok b ∧ b ∈ l := by
+  induction d generalizing l with
+  | nil => intro a ha; cases ha
+  | cons x rest ih =>
+    rw [List.mapM_cons] at h
+    cases hx : g x with
+    | error e => rw [hx] at h; cases h
+    | ok v =>
+      cases hr : rest.mapM g with
+      | error e => rw [hx, hr] at h; cases h
+      | ok l' =>
+        rw [hx, hr] at h
+        cases h
+        intro a ha
+        rcases List.mem_cons.mp ha with rfl | hin
+        · exact ⟨v, hx, List.mem_cons_self⟩
+        · obtain ⟨w, hw, hm⟩ := ih l' hr a hin
+          exact ⟨w, hw, List.mem_cons_of_mem _ hm⟩
+
+/-- every slot of `keys_dict` reads the value `items()` lists for that key -/
+theorem slot_reads_listed (f : Bytes) (d : List (List Char × Slot)) (l : List (List Char × Val))
+    (h : d.mapM (fun (k, s) => (getData f s).map fun v => (k, v)) = .ok l) :
+    ∀ ks ∈ d, ∃ v, getData f ks.2 = .ok v ∧ (ks.1, v) ∈ l := by
+  intro ks hks
+  obtain ⟨b, hb, hm⟩ := mapM_ok_mem _ d l h ks hks
+  cases hg : getData f ks.2 with
+  | error e => simp [hg, Except.map] at hb
+  | ok v =>
+    simp only [hg, Except.map, Except.ok.injEq] at hb
+    subst hb
+    exact ⟨v, rfl, hm⟩
+
+/-- **the round trip through a shared file object**: on `pre ++ segment m` every history of reads of
+index entries (`hist` ⊆ `keys_dict`, any order, repetitions, any starting position) returns for each
+step the value the property demands for that key (an entry of `Spec.expected m`). -/
+theorem xpak_roundtrip_shared_fd (pre : Bytes) (m : Map) (hd : Spec.Dom m) (hn : NotRewritten m)
+    (d : List (List Char × Slot)) (hk : keysDict (pre ++ Spec.segment m) = .ok d)
+    (hist : List (List Char × Slot)) (hsub : ∀ ks ∈ hist, ks ∈ d) (p : Nat) :
+    ∃ vs : List Val, readHistory ⟨pre ++ Spec.segment m, p⟩ (hist.map (·.2)) = vs.map .ok ∧
+      vs.length = hist.length ∧ ∀ i (hi : i < hist.length) (hv : i < vs.length),
+        (hist[i].1, vs[i]) ∈ Spec.expected m := by
+  have hit := xpak_roundtrip_partial pre m hd hn
+  unfold items at hit
+  rw [hk] at hit
+  simp only at hit
+  have hl := slot_reads_listed _ d _ hit
+  rw [readHistory_independent]
+  clear hit hk
+  induction hist with
+  | nil => exact ⟨[], rfl, rfl, fun i hi => absurd hi (Nat.not_lt_zero _)⟩
+  | cons a rest ih =>
+    obtain ⟨v, hv, hm⟩ := hl a (hsub a List.mem_cons_self)
+    obtain ⟨vs, h1, h2, h3⟩ := ih (fun ks hks => hsub ks (List.mem_cons_of_mem _ hks))
+    refine ⟨v :: vs, ?_, ?_, ?_⟩
+    · simp only [List.map_cons, hv, h1]
+    · simp [h2]
+    · intro i hi hvi
+      cases i with
+      | zero => exact hm
+      | succ j => exact h3 j (by simpa using hi) (by simpa using hvi)
+
 /-! ### the hypotheses are satisfiable -/
 
 def exampleMap : Map :=
@@ -199,6 +300,14 @@ example : Represents [1, 2, 3] ⟨[1, 2, 3], none⟩ := ⟨rfl, by show startOf 
 /-- and the round trip really returns typed values -/
 example : items ([7, 7] ++ Spec.segment exampleMap) = .ok
     [("CATEGORY".toList, .text "dev-lang\n"), ("environment.bz2".toList, .bytes [0xff, 0x00]), ("DESCRIPTION".toList, .text "é")] := by
+  decide
+
+/-- an interleaved history on one shared file object, starting at position 3: entry 0, a lookup of entry 2,
+entry 1, entry 2 again — every step returns its own key's value -/
+example : (match keysDict ([7, 7] ++ Spec.segment exampleMap) with
+    | .ok d => readHistory ⟨[7, 7] ++ Spec.segment exampleMap, 3⟩ ([d[0]!, d[2]!, d[1]!, d[2]!].map (·.2))
+    | .error _ => []) =
+    [.ok (.text "dev-lang\n"), .ok (.text "é"), .ok (.bytes [0xff, 0x00]), .ok (.text "é")] := by
   decide
 
 end Pkgcore.C26
